@@ -127,6 +127,35 @@ theorem session_stays_protected (op : SessionOp) (w : WorldT) (h : w.ctlTls = tr
   · have : (afterT op.run w).ctlTls = w.ctlTls := congrArg (fun k => k.2.2) hc
     rw [this, h]
 
+/-- a history of calls on one session: each call starts in the state the previous one left, whether it returned or threw -/
+def runAll : List SessionOp → WorldT → WorldT
+  | [], w => w
+  | op :: ops, w => runAll ops (afterT op.run w)
+
+/-- **histories**: from a protected session, any number of calls - logins, simple commands, downloads, uploads, listings,
+    in any order, returned or thrown - never writes a command in clear text, and the session is still protected at the
+    end (induction over the list of calls) -/
+theorem history_stays_protected (ops : List SessionOp) (w : WorldT) (h : w.ctlTls = true) :
+    (∃ evs, (runAll ops w).trace = w.trace ++ evs ∧ plainWrites evs = []) ∧ (runAll ops w).ctlTls = true := by
+  induction ops generalizing w with
+  | nil => exact ⟨⟨[], by simp [runAll], rfl⟩, h⟩
+  | cons op ops ih =>
+    obtain ⟨e1, ht1, _⟩ := op_tag op w
+    obtain ⟨hp1, hc1⟩ := session_stays_protected op w h
+    have he1 : addedT op.run w = e1 := by
+      unfold addedT afterT
+      rw [ht1, List.drop_left]
+    obtain ⟨⟨e2, ht2, hp2⟩, hc2⟩ := ih (afterT op.run w) hc1
+    refine ⟨⟨e1 ++ e2, ?_, ?_⟩, hc2⟩
+    · show (runAll ops (afterT op.run w)).trace = _
+      rw [ht2]
+      show (op.run w).2.trace ++ e2 = _
+      rw [ht1, List.append_assoc]
+    · rw [← he1]
+      unfold plainWrites at *
+      rw [List.filterMap_append, hp1, hp2]
+      rfl
+
 private theorem op_broken (op : SessionOp) : L.AllB op.run := by
   cases op with
   | login u p => exact L.allB_discard (L.loginT_b u p)
